@@ -87,6 +87,7 @@ def run(tier, seed, replay=None):
         return r
     replay_cases, replay_meta = [], []
     n_skipped_tie = 0
+    n_identity = 0
     try:
         D.rank_chop = spy
         for i in range(n):
@@ -108,6 +109,18 @@ def run(tier, seed, replay=None):
             fails = check_property(A, At, x, shape, eps, rmax, dtype, torch)
             for f in fails:
                 V.fail("%s [%s]" % (f.split(":")[0], family), dict(desc, failure=f, R=[int(r) for r in x.R], data=(np.asarray(A).tolist() if np.asarray(A).size <= 64 else "omitted")))
+            # the matrix-level model (C01_sweep_error_eq): squared error = sum of the energies discarded at the bonds
+            Rk = [int(r) for r in x.R]
+            if len(rec) == len(Rk) - 2 and not fails:
+                import ttgen as _tg
+                full = _tg.ref_full([c.detach().resolve_conj().numpy() for c in x.cores]).reshape(-1)
+                err2 = float(np.sum(np.abs(full - At.numpy().reshape(-1).astype(full.dtype)) ** 2))
+                disc = sum(float(np.sum(np.abs(s[Rk[b + 1]:].astype(np.float64)) ** 2)) for b, (s, _, _) in enumerate(rec))
+                nrm2 = float(np.sum(np.abs(At.numpy().astype(np.complex128)) ** 2))
+                tol_id = (1e-4 if dtype in (torch.float32, torch.complex64) else 1e-10) * nrm2 + 1e-300
+                n_identity += 1
+                if abs(err2 - disc) > tol_id:
+                    V.fail("squared error differs from the sum of the discarded energies [%s]" % family, dict(desc, err2=err2, discarded=disc, R=Rk))
             # decisions: threshold passed to rank_chop, and the rank chosen, against the model
             is_op = shape is not None and isinstance(shape[0], tuple)
             d = len(shape) if shape is not None else np.asarray(A).ndim
@@ -140,9 +153,9 @@ def run(tier, seed, replay=None):
               "and counted), the threshold argument is compared with eps/sqrt(d-1)*||s||, and error / shape / rank bounds are measured; non-trivial = a case in which a rank "
               "decision was replayed; distinct = distinct case descriptions"),
         samples=samples, distribution=dist, rank_chop_direct_agreements=n_l1_ok, rank_decisions_replayed=len(replay_cases),
-        rank_decisions_agree=n_replay_ok, near_ties_skipped=n_skipped_tie, known_findings_reproduced=V.known_hit,
-        partial=["the link 'sum of the per-bond discarded energies = squared reconstruction error' (orthogonality of the SVD factors, Pythagoras) is measured on every case, not proved; "
-                 "the proved part is rank_chop_tail/minimal/range and the budget theorem sweep_budget over an oracle stream of spectra"])
+        rank_decisions_agree=n_replay_ok, near_ties_skipped=n_skipped_tie, error_equals_sum_of_discarded_energies_checked=n_identity, known_findings_reproduced=V.known_hit,
+        partial=["floating-point round-off and LAPACK's SVD are modelled as exact truncated SVDs (oracle hypotheses spectrum_link / orth_stages of tt_svd_error_bound); the identity "
+                 "'squared error = sum of discarded energies' that the theorem derives is also measured on every case; the bridge 'chain of cores = recursive matrix reconstruction' is by construction of the model"])
     common.write_evidence(PID, tier, seed, cov, time.time() - t0, nviol, common.TRUSTED_BASE)
     return 1 if nviol else 0
 
